@@ -2,7 +2,7 @@ SPECIFICATION Spec
 CONSTANTS
   ChainParams <- GrinChainParams
   Deltas = {1, 60, 7200}
-  Diffs = {3, 1000}
+  Diffs = {3, 140000}
   Scals = {20, 1856}
   Bases = {5, 1600000000}
   ShortLens = {0, 1, 2, 3}
